@@ -671,6 +671,8 @@ func (e Engine) run(ctx *kit.Ctx, sc *kit.Scenario[Config, Op], res *kit.Result,
 				progress    int
 				lossBeyond  bool
 				mustFail    bool // nothing is stored under the name any more
+				spare       enc.Name // the whole array behind the name slice handed to Consume
+				nameLen     int
 			}
 			var fetches []*fetch
 			maxSeg := 0
@@ -708,6 +710,14 @@ func (e Engine) run(ctx *kit.Ctx, sc *kit.Scenario[Config, Op], res *kit.Result,
 					nm = append(nm, enc.NewVersionComponent(newest[f.obj]))
 					ctx.Probe("fetch-by-versioned-name")
 				}
+				// ... and the room belongs to the application: the array may hold a longer name of which this one is
+				// a prefix (long[:2] handed to one request, long[:3] to another); a client that appends to the slice
+				// it was given writes into that other name
+				spare := nm[:cap(nm)]
+				for k := len(nm); k < len(spare); k++ {
+					spare[k] = enc.NewStringComponent(enc.TypeGenericNameComponent, "application-data")
+				}
+				f.spare, f.nameLen = spare, len(nm)
 				consumer.Consume(nm, func(st *object.ConsumeState) bool {
 					f.progress++
 					f.got = append(f.got, st.Content()...)
@@ -1024,6 +1034,8 @@ func (e Engine) run(ctx *kit.Ctx, sc *kit.Scenario[Config, Op], res *kit.Result,
 				switch {
 				case f.completions == 0:
 					fail("C15/fetch-never-completes", key, "no completion (success or error) of %s %v after the fetch started; %d progress callbacks, %d of %d bytes", objNames[f.obj], now(), f.progress, len(f.got), len(f.want))
+				case f.nameLen < len(f.spare) && string(f.spare[f.nameLen].Val) != "application-data":
+					fail("C15/caller-name-array-written", "consume", "Consume(%s) wrote %s into the array behind the name slice it was given (position %d, beyond the slice's length): another request whose name shares that array now asks for a name it did not give", objNames[f.obj], f.spare[f.nameLen], f.nameLen)
 				case f.completions > 1:
 					fail("C15/completion-reported-twice", key, "completion callback of %s reported %d times", objNames[f.obj], f.completions)
 				case f.mustFail && f.cerr == nil:
